@@ -172,6 +172,25 @@ theorem value_clause_text (key : Str) (op : String) (tmpl : String) (s : Str)
       = .ok (format2 tmpl.toList key (qd s)) := by
   simp [valueToCel, hb.1, hb.2, ht, PV.celText]
 
+/-- with a value type: the two transform texts, rendered from the literal, the key, `now` and the age
+duration, are pasted into the op's template — new key into `{0}`, new cel_value into `{1}` -/
+theorem value_clause_text_vt (key : Str) (op vt : String) (tmpl : String) (e : TVExpr × TVExpr) (n : Int)
+    (hr : (op = "in" ∨ op = "ni" ∨ op = "not-in") → vt = "swap")
+    (hs : vt = "swap" → ¬ (op = "glob" ∨ op = "regex" ∨ op = "contains" ∨ op = "difference" ∨ op = "intersect"))
+    (ht : lookup XlateTables.atomicOpMap op = some tmpl) (he : lookup XlateTables.typeValueMap vt = some e) :
+    valueToCel XlateTables.atomicOpMap XlateTables.typeValueMap key op (.int n) (some vt)
+      = .ok (format2 tmpl.toList
+          (e.2.render (intDigits n) key (lit "now") (ageToDuration n.toNat))
+          (e.1.render (intDigits n) key (lit "now") (ageToDuration n.toNat))) := by
+  by_cases hsw : vt = "swap"
+  · have h2 := hs hsw
+    simp only [not_or] at h2
+    subst hsw
+    simp [valueToCel, h2.1, h2.2.1, h2.2.2.1, h2.2.2.2.1, h2.2.2.2.2, ht, he, PV.celText]
+  · have h3 : ¬ (op = "in" ∨ op = "ni" ∨ op = "not-in") := fun h => hsw (hr h)
+    simp only [not_or] at h3
+    simp [valueToCel, hsw, h3.1, h3.2.1, h3.2.2, ht, he, PV.celText]
+
 /-! ### resource tables -/
 
 /-- "every resource type listed in the translator's tables yields syntactically valid CEL": every
